@@ -10,15 +10,20 @@ Local Open Scope string_scope.
 
 Definition stops (s : string) : Prop := stops_at (is_ident false) s = true.
 
-Lemma is_ident_name_char : forall c, is_ident false c = name_char c.
-Proof. intros. unfold is_ident, name_char. simpl. reflexivity. Qed.
+Lemma name_char_facts : forall c, name_char c = true -> is_ident false c = true /\ is_nul c = false.
+Proof.
+  intros c H. unfold name_char in H. apply andb_true_iff in H. destruct H as [H Hz].
+  apply negb_true_iff in Hz. split; [|exact Hz]. unfold is_ident. simpl. exact H.
+Qed.
 
 Lemma name_lexable : forall n,
     n <> "" -> forall_chars name_char n = true -> no_blank_around n = true -> lexable n.
 Proof.
-  intros n Hne Hc Hb. split; [assumption|]. split.
+  intros n Hne Hc Hb. split; [assumption|]. split; [|split].
   - destruct n as [|c r]; [exact I|]. eapply no_blank_first; eassumption.
-  - eapply forall_chars_impl; [|exact Hc]. intros c H. rewrite is_ident_name_char. exact H.
+  - eapply forall_chars_impl; [|exact Hc]. intros c H. apply name_char_facts in H. tauto.
+  - unfold no_nul. eapply forall_chars_impl; [|exact Hc]. intros c H. apply name_char_facts in H.
+    destruct H as [_ H]. rewrite H. reflexivity.
 Qed.
 
 Lemma stops_coms : forall cs rest, stops rest -> stops (write_coms cs ++ rest).
@@ -65,28 +70,32 @@ Section Round.
 
   (** * numbers as tokens *)
   Lemma num_char_facts : forall c, num_char c = true ->
-      is_ident false c = true /\ is_ws c = false /\ Ascii.eqb c "/" = false.
+      is_ident false c = true /\ is_ws c = false /\ Ascii.eqb c "/" = false /\ is_nul c = false.
   Proof.
     intros c H. unfold num_char in H.
+    apply andb_true_iff in H. destruct H as [H _].
+    apply andb_true_iff in H. destruct H as [H H4].
     apply andb_true_iff in H. destruct H as [H H3]. apply andb_true_iff in H. destruct H as [H1 H2].
-    apply negb_true_iff in H2. apply negb_true_iff in H3. auto.
+    apply negb_true_iff in H2. apply negb_true_iff in H3. apply negb_true_iff in H4. auto.
   Qed.
 
   Lemma fmt_lexable : forall x, numok x = true -> lexable (fmt x).
   Proof.
     intros x H. pose proof (h_fmt_nonempty _ _ _ _ SC x H) as Hne.
     pose proof (h_fmt_chars _ _ _ _ SC x H) as Hc.
-    split; [assumption|]. split.
+    split; [assumption|]. split; [|split].
     - destruct (fmt x) as [|c r]; [exact I|]. simpl in Hc. apply andb_true_iff in Hc.
       destruct Hc as [Hc _]. apply num_char_facts in Hc. tauto.
     - eapply forall_chars_impl; [|exact Hc]. intros c Hn. apply num_char_facts in Hn. tauto.
+    - unfold no_nul. eapply forall_chars_impl; [|exact Hc]. intros c Hn. apply num_char_facts in Hn.
+      destruct Hn as [_ [_ [_ Hn]]]. rewrite Hn. reflexivity.
   Qed.
 
   Lemma fmt_no_slash : forall x, numok x = true -> no_slash (fmt x) = true.
   Proof.
     intros x H. pose proof (h_fmt_chars _ _ _ _ SC x H) as Hc. unfold no_slash.
     eapply forall_chars_impl; [|exact Hc]. intros c Hn. apply num_char_facts in Hn.
-    destruct Hn as [_ [_ Hn]]. rewrite Hn. reflexivity.
+    destruct Hn as [_ [_ [Hn _]]]. rewrite Hn. reflexivity.
   Qed.
 
   Lemma fmt_parse : forall x, numok x = true -> parse_num (fmt x) = Some (pvl x).
@@ -97,11 +106,12 @@ Section Round.
   Lemma pair_lexable : forall x y, numok x = true -> numok y = true ->
       lexable (fmt x ++ String "/" (fmt y)).
   Proof.
-    intros x y Hx Hy. destruct (fmt_lexable x Hx) as [Hne [Hws Hall]].
-    destruct (fmt_lexable y Hy) as [_ [_ Hall2]].
-    split; [destruct (fmt x); [congruence|discriminate]|]. split.
+    intros x y Hx Hy. destruct (fmt_lexable x Hx) as [Hne [Hws [Hall Hn1]]].
+    destruct (fmt_lexable y Hy) as [_ [_ [Hall2 Hn2]]].
+    split; [destruct (fmt x); [congruence|discriminate]|]. split; [|split].
     - destruct (fmt x); [congruence|exact Hws].
     - rewrite forall_chars_app, Hall. simpl. rewrite Hall2. reflexivity.
+    - unfold no_nul in *. rewrite forall_chars_app, Hn1. simpl. rewrite Hn2. reflexivity.
   Qed.
 
   Lemma pair_not_numeric : forall x y, numeric (fmt x ++ String "/" (fmt y)) = false.
@@ -305,6 +315,7 @@ Section Round.
     - (* a tip *)
       simpl length. simpl Nat.ltb. cbv iota. cbn [NewickCanon.joinF]. simpl append at 2.
       unfold tip_name_ok in Hname.
+      apply andb_true_iff in Hname. destruct Hname as [Hname _].
       apply andb_true_iff in Hname. destruct Hname as [Hname Hblank].
       apply andb_true_iff in Hname. destruct Hname as [Hne Hchars].
       apply negb_true_iff in Hne.
@@ -417,6 +428,7 @@ Section Round.
           unfold sup_str. rewrite En, andb_false_r.
           unfold inner_name_ok in Hname. rewrite En in Hname. simpl in Hname.
           apply andb_true_iff in Hname. destruct Hname as [Hname Hnl].
+          apply andb_true_iff in Hname. destruct Hname as [Hname _].
           apply andb_true_iff in Hname. destruct Hname as [Hchars Hblank].
           apply negb_true_iff in Hnl. unfold numeric_looking in Hnl.
           apply orb_false_iff in Hnl. destruct Hnl as [Hnum Hpair].
@@ -479,6 +491,7 @@ Section Round.
       unfold add_ncoms. rewrite G1, G2, G3, G4. reflexivity.
     - unfold inner_name_ok in Hname. rewrite En in Hname. simpl in Hname.
       apply andb_true_iff in Hname. destruct Hname as [Hname Hnl].
+      apply andb_true_iff in Hname. destruct Hname as [Hname _].
       apply andb_true_iff in Hname. destruct Hname as [Hchars Hblank].
       apply negb_true_iff in Hnl. unfold numeric_looking in Hnl.
       apply orb_false_iff in Hnl. destruct Hnl as [Hnum _].
@@ -494,8 +507,8 @@ Section Round.
       unfold add_ncoms, set_name. simpl. rewrite G2, G3, G4. reflexivity.
   Qed.
 
-  Theorem parse_write : forall t, wfN numeric numok t = true ->
-      parse numeric parse_num (write fmt t) = POk (canon_root t).
+  Theorem parse_raw_write : forall t, wfN numeric numok t = true ->
+      parse_raw numeric parse_num (write fmt t) = POk (canon_root t).
   Proof.
     intros t Hwf. destruct (root_steps t Hwf) as [q Hs].
     pose proof (steps_parse_iter _ _ _ _ _ _ Hs) as Hiter.
@@ -505,7 +518,7 @@ Section Round.
       replace (Nat.ltb 1 (0 + length (kids_of sl))) with true by (symmetry; apply Nat.ltb_lt; simpl; lia).
       eexists. simpl. reflexivity. }
     destruct Hw as [r Hw].
-    unfold parse, parse_fuel.
+    unfold parse_raw, parse_fuel.
     replace (scan_iw numeric (write fmt t)) with (OPENPAR, "(", r, write fmt t)
       by (rewrite Hw; reflexivity).
     cbv beta iota. simpl negb. cbv iota.
@@ -515,14 +528,4 @@ Section Round.
     rewrite trim_canon_root with (numeric := numeric) (numok := numok); [reflexivity|exact Hwf].
   Qed.
 
-  (** C01, under the assumed behaviour of strconv *)
-  Theorem round_trip : forall t, wfN numeric numok t = true ->
-      exists t', parse numeric parse_num (write fmt t) = POk t' /\
-                 rose_eqb (rose_of t') (rose_of t) = true /\
-                 write fmt t' = write fmt t.
-  Proof.
-    intros t Hwf. exists (canon_root t). split; [apply parse_write; assumption|]. split.
-    - apply rose_canon_root with (numeric := numeric) (numok := numok); assumption.
-    - apply write_canon_root with (numeric := numeric) (numok := numok); assumption.
-  Qed.
 End Round.
